@@ -102,6 +102,8 @@ class Build:
         out = r.stdout + r.stderr
         m = re.search(r'VERIF-REPLAY (\{.*\})', out)
         if not m:
+            if 'panic:' not in out and 'exit status 1' in out and '[build failed]' not in out:
+                return {'exited': True, 'failures': [], 'panic': '', 'raw': out[-1500:]}
             return {'error': 'no replay line', 'raw': out[-3000:]}
         d = json.loads(m.group(1))
         d['raw'] = out[-1500:]
@@ -225,7 +227,7 @@ def array_model(model, c, ibits):
     return {'default': default, 'entries': entries}
 
 
-def run_entry(world, entry, config=None, timeout_ms=120000, known=None, want_models=True, max_unwind=None, setup=None, only=None, skip_implicit=False, interp_budget_s=900, solve_budget_s=1800):
+def run_entry(world, entry, config=None, timeout_ms=120000, known=None, want_models=True, max_unwind=None, setup=None, only=None, skip_implicit=False, interp_budget_s=900, solve_budget_s=1800, allow_marks=()):
     """symbolically execute one harness entry; discharge its obligations. Returns a dict."""
     prog = world.prog
     ex = world.ex
@@ -283,6 +285,11 @@ def run_entry(world, entry, config=None, timeout_ms=120000, known=None, want_mod
         if ob.kind == 'assert' and only is not None and not re.match(only, ob.name):
             continue
         if skip_implicit and ob.kind not in ('assert', 'reach'):
+            continue
+        if ob.mark in allow_marks and ob.kind not in ('assert', 'reach'):
+            # a failure site in a phase where failing is an accepted outcome (e.g. construction): not an obligation
+            res.setdefault('allowed_sites', 0)
+            res['allowed_sites'] += 1
             continue
         o = {'kind': ob.kind, 'name': ob.name, 'pos': short_pos(ob.pos)}
         cond = ob.cond
@@ -423,11 +430,20 @@ class Check:
         self.bounds = {}
         self.assumptions = []
         self.stubs_used = list(stubs)
-        self.build = Build(self.workdir, pkgs, stubs=stubs, extra_overlay=extra_overlay)
+        self.builds = []
+        self.stubs = stubs
+        self.max_unwind = max_unwind
+        self.use_build(pkgs, bodies=bodies, extra_overlay=extra_overlay)
+
+    def use_build(self, pkgs, bodies='', extra_overlay=None):
+        """(re)build the IR for another set of packages / overlay; later run() calls use it (a check may span several builds)"""
+        wd = os.path.join(self.workdir, 'b%d' % len(self.builds))
+        self.build = Build(wd, pkgs, stubs=self.stubs, extra_overlay=extra_overlay)
+        self.builds.append(self.build)
         self.pkgs = pkgs
         try:
             self.prog = self.build.export(bodies)
-            self.world = BaseWorld(self.prog, max_unwind=max_unwind)
+            self.world = BaseWorld(self.prog, max_unwind=self.max_unwind)
         except (Inconclusive, Unsupported, UnwindError, NeedWidth) as e:
             self.fail_inconclusive(str(e))
 
@@ -463,6 +479,7 @@ class Check:
                 outs = pool.map(_worker_global, tasks, chunksize=1)
         for (pk, e, cfg), o in zip(jobs, outs):
             o['pkg'] = pk
+            o['build'] = len(self.builds) - 1
             self.results.append(o)
         return outs
 
@@ -532,7 +549,7 @@ class Check:
             model['kind'] = o['kind']
             model['pos'] = o.get('pos')
             json.dump(model, open(mf, 'w'), indent=1, sort_keys=True)
-            rp = self.build.replay(r['pkg'], short, mf)
+            rp = self.builds[r.get('build', 0)].replay(r['pkg'], short, mf)
             ok = False
             if 'error' in rp:
                 inconclusive.append('replay of %s failed to run: %s %s' % (mf, rp['error'], rp.get('raw', '')[-500:]))
@@ -544,6 +561,10 @@ class Check:
                 ok = o['name'] in rp.get('failures', [])
                 if not ok:
                     inconclusive.append('replay of %s: assertion %s did not fail natively (failures=%s panic=%s) -> encoding mismatch' % (mf, o['name'], rp.get('failures'), rp.get('panic')))
+            elif o['kind'] == 'exit':
+                ok = bool(rp.get('exited'))
+                if not ok:
+                    inconclusive.append('replay of %s: the process did not exit natively -> encoding mismatch' % mf)
             else:
                 ok = bool(rp.get('panic'))
                 if not ok:
